@@ -32,6 +32,10 @@ struct child {
 	int		ndel;
 	_Atomic int	told_exit;
 	int		wrong_thread;
+	_Atomic int	auto_cont;		/* continue it as soon as its stop has been reaped: two status changes back to back */
+	int		unreg_by_other;		/* another handler unregistered the interest */
+	char		hist[64];
+	_Atomic int	nhist;
 	int		linger;			/* the interest stays registered for a while after the terminating status */
 };
 static struct child ch[MAXC];
@@ -45,9 +49,16 @@ static _Atomic int ng;
 
 static struct {
 	uint64_t cases, children, spawned, forked_with_interest, strangers, statuses_reaped, statuses_delivered, stops, conts, exits, kills,
-		 kill_helper_calls, kill_helper_dead, unreg_in_handler, immediate_exits, stranger_deaths, zombie_checks;
+		 kill_helper_calls, kill_helper_dead, unreg_in_handler, immediate_exits, stranger_deaths, zombie_checks, unreg_other, batches;
 } S;
 static _Atomic long c_reaped, c_delivered, c_killcalls, c_killdead, c_stranger_deaths;
+
+static void hist(struct child *c, char x)
+{
+	int i = atomic_fetch_add(&c->nhist, 1);
+	if (i < 63)
+		c->hist[i] = x;
+}
 
 static struct child *child_by_pid(int pid)
 {
@@ -81,13 +92,21 @@ void hk_wait4(pid_t arg, int options, pid_t ret, int status)
 	c = child_by_pid(ret);
 	if (c == NULL)
 		return;
+	hist(c, WIFEXITED(status) ? 'X' : WIFSIGNALED(status) ? 'K' : WIFSTOPPED(status) ? 'S' : WIFCONTINUED(status) ? 'C' : '?');
 	if (WIFEXITED(status) || WIFSIGNALED(status)) {
 		c->dead_seq = i < MAXG ? G[i].seq : seq_next();
 		c->dead_reaped = 1;
 		if (c->kind == CK_STRANGER)
 			atomic_fetch_add(&c_stranger_deaths, 1);
 	}
-	if (atomic_load(&c->outstanding) > 0) {
+	if (WIFSTOPPED(status) && atomic_load(&c->outstanding) > 0 && atomic_exchange(&c->auto_cont, 0)) {
+		/* continue it at once; the outstanding action is now "continued" (no window in which the child looks idle and stopped) */
+		hist(c, 'a');
+		if (__real_kill(ret, SIGCONT) < 0) {
+			atomic_fetch_sub(&c->outstanding, 1);
+			vt_ext_add(-1);
+		}
+	} else if (atomic_load(&c->outstanding) > 0) {
 		atomic_fetch_sub(&c->outstanding, 1);
 		vt_ext_add(-1);
 	}
@@ -176,6 +195,28 @@ static void wait_cb(void *cookie, int status, const struct rusage *ru)
 		c->wi = NULL;
 		return;
 	}
+	if (rng_pct(&lt->rng, 20)) {
+		struct timespec ts = { 0, 1000 * (1 + (long)rng_n(&lt->rng, 400)) };
+		nanosleep(&ts, NULL);	/* a slow handler: further status changes queue up meanwhile */
+	}
+	if (rng_pct(&lt->rng, 15)) {
+		/* unregister another interest of this thread from here (its child is then nobody's concern) */
+		int j, n2 = nch;
+		for (j = 0; j < n2; j++) {
+			struct child *o = &ch[j];
+			if (o != c && o->kind != CK_ANCHOR && o->registered && o->owner == lt->idx && o->wi != NULL && o->linger == 0) {
+				o->unreg_seq = seq_next();
+				o->unreg_by_other = 1;
+				iv_wait_interest_unregister(o->wi);
+				o->registered = 0;
+				memset(o->wi, 0xDD, sizeof(*o->wi));
+				free(o->wi);
+				o->wi = NULL;
+				S.unreg_other++;
+				break;
+			}
+		}
+	}
 	/* kill helper on a living child (signal 0 probes only) */
 	if (rng_pct(&lt->rng, 30)) {
 		int r = iv_wait_interest_kill(c->wi, 0);
@@ -219,6 +260,7 @@ static void tell(struct child *c, char cmd)
 		return;		/* a stopped child cannot read its pipe */
 	if (cmd == 'e' || cmd == 'k' || cmd == 't')
 		c->told_exit = 1;
+	hist(c, cmd);
 	atomic_fetch_add(&c->outstanding, 1);
 	vt_ext_add(1);
 	if (__real_write(c->cmd[1], &cmd, 1) != 1) {
@@ -229,6 +271,7 @@ static void tell(struct child *c, char cmd)
 
 static void cont(struct child *c)
 {
+	hist(c, 'c');
 	atomic_fetch_add(&c->outstanding, 1);
 	vt_ext_add(1);
 	if (__real_kill(c->pid, SIGCONT) < 0) {
@@ -333,10 +376,13 @@ static void prog_cb(void *cookie)
 			/* act on own children and on strangers only (the status change of someone else's child is their business) */
 			if (c->kind == CK_ANCHOR || (c->owner >= 0 && c->owner != lt->idx) || (c->owner < 0 && lt->idx != 0) || c->pid <= 0 || c->told_exit || c->outstanding > 0)
 				continue;
-			if (r < 45) { tell(c, 's'); S.stops++; }
-			else if (r < 55 && c->owner == lt->idx) {
-				/* stop then continue: two status changes in a row */
-				tell(c, 's'); S.stops++;
+			if (r < 40) { tell(c, 's'); S.stops++; }
+			else if (r < 55) {
+				/* stop then continue at once: two status changes queue up behind each other */
+				if (c->outstanding == 0 && !is_stopped(c)) {
+					c->auto_cont = 1;
+					tell(c, 's'); S.stops++; S.conts++;
+				}
 			}
 			else if (r < 70) { tell(c, 'e'); S.exits++; }
 			else if (r < 78) { tell(c, 'k'); S.kills++; }
@@ -510,7 +556,7 @@ static void scn_quiescent_check(void)
 		}
 		if (c->ndel < ne) {
 			/* fewer delivered: fine only if the handler unregistered the interest itself after delivery ndel (unreg_at) */
-			if (!(c->unreg_at && c->ndel == c->unreg_at && !c->registered))
+			if (!(c->unreg_at && c->ndel == c->unreg_at && !c->registered) && !c->unreg_by_other)
 				mon_viol("C11", "status-not-delivered", g_method,
 					 "pid %d (%s): the reaper saw %d status change(s) but only %d were delivered; first missing: %s", (int)c->pid,
 					 c->kind == CK_SPAWN ? "spawned through the library" : c->kind == CK_ANCHOR ? "anchor" : "forked, then registered",
@@ -529,6 +575,17 @@ static void wait_fatal(const char *msg)
 	mt_fatal(msg);
 }
 
+static void wd_dump(void)
+{
+	int i;
+	mon_printf("NOTE wd: ext_pending=%d final_round=%d phase=%d nch=%d ng=%d\n", vt_ext_pending(), final_round, (int)mt_phase, (int)nch, (int)ng);
+	for (i = 0; i < nch; i++)
+		if (ch[i].outstanding || (ch[i].pid > 0 && !ch[i].dead_reaped))
+			mon_printf("NOTE wd: child %d kind=%d pid=%d owner=%d outstanding=%d dead=%d told_exit=%d registered=%d stopped=%d auto_cont=%d linger=%d hist=%s\n",
+				   i, ch[i].kind, (int)ch[i].pid, ch[i].owner, (int)ch[i].outstanding, (int)ch[i].dead_reaped, (int)ch[i].told_exit,
+				   (int)ch[i].registered, is_stopped(&ch[i]), (int)ch[i].auto_cont, ch[i].linger, ch[i].hist);
+}
+
 static void run_case(long id, uint64_t seed)
 {
 	struct rng r;
@@ -537,7 +594,8 @@ static void run_case(long id, uint64_t seed)
 
 	mon_case_id = id;
 	mon_viol_case = 0;
-	mon_watchdog(120);
+	mon_watchdog_dump = wd_dump;
+	mon_watchdog((int)(getenv("WD_SECS") ? atoi(getenv("WD_SECS")) : 120));
 	cs = mix64(seed ^ (uint64_t)id * 0x9E3779B97F4A7C15ULL);
 	rng_seed(&r, seed, (uint64_t)id);
 	vt_reset_case(cs);
@@ -597,11 +655,11 @@ int main(int argc, char **argv)
 		run_case(i, seed);
 	mon_printf("STAT method=%s cases=%llu children=%llu spawned=%llu forked_with_interest=%llu strangers=%llu stranger_deaths_reaped=%ld statuses_reaped=%ld "
 		   "statuses_delivered=%ld stops=%llu continues=%llu exits=%llu kills=%llu immediate_exits=%llu unregistered_in_handler_before_death=%llu "
-		   "kill_helper_calls=%ld kill_helper_on_reaped_dead=%ld zombie_checks=%llu shim_quiescences=%llu sig_deliveries=%llu violations=%d\n",
+		   "unregistered_by_another_handler=%llu kill_helper_calls=%ld kill_helper_on_reaped_dead=%ld zombie_checks=%llu shim_quiescences=%llu sig_deliveries=%llu violations=%d\n",
 		   g_method, (unsigned long long)S.cases, (unsigned long long)S.children, (unsigned long long)S.spawned, (unsigned long long)S.forked_with_interest,
 		   (unsigned long long)S.strangers, (long)c_stranger_deaths, (long)c_reaped, (long)c_delivered, (unsigned long long)S.stops,
 		   (unsigned long long)S.conts, (unsigned long long)S.exits, (unsigned long long)S.kills, (unsigned long long)S.immediate_exits,
-		   (unsigned long long)S.unreg_in_handler, (long)c_killcalls, (long)c_killdead, (unsigned long long)S.zombie_checks,
+		   (unsigned long long)S.unreg_in_handler, (unsigned long long)S.unreg_other, (long)c_killcalls, (long)c_killdead, (unsigned long long)S.zombie_checks,
 		   (unsigned long long)vt_stats.quiescences, (unsigned long long)vt_stats.sig_deliveries, mon_viol_total);
 	mon_printf("DONE\n");
 	return 0;
